@@ -200,14 +200,13 @@ func checkStateSampled(s *drive.Shard, m *model.Collection, pool, byId []uuid.UU
 func execCase(h gen.History) (res vt.Result) {
 	if len(h.Rename) > 0 {
 		vt.R().Count("histories_with_renamed_properties", 1)
-		h = h.Renamed()
 	}
 	rec := vt.R()
 	dir, cleanup := drive.CaseDir()
 	defer cleanup()
 	path := filepath.Join(dir, "sharddb.bbolt")
 	mgr := drive.Manager(h.CacheLimit)
-	s, err := drive.Open(path, h.Schema, h.MaxPointSize, mgr)
+	s, err := drive.OpenNamed(path, h.Schema, h.MaxPointSize, mgr, h.Rename)
 	if err != nil {
 		return vt.Result{Err: fmt.Errorf("open: %v", err)}
 	}
@@ -219,6 +218,7 @@ func execCase(h gen.History) (res vt.Result) {
 		rec.Count("histories_with_preset_node_ids", 1)
 	}
 	m := model.NewCollection(h.Schema, h.MaxPointSize)
+	m.SizeNames = h.Rename
 	poolSet := map[uuid.UUID]bool{}
 	for _, st := range h.Steps {
 		for _, p := range st.Points {
@@ -320,7 +320,7 @@ func execCase(h gen.History) (res vt.Result) {
 			if err := s.Close(); err != nil {
 				return fail(i, st, "close: %v", err)
 			}
-			s, err = drive.Open(path, h.Schema, h.MaxPointSize, mgr)
+			s, err = drive.OpenNamed(path, h.Schema, h.MaxPointSize, mgr, h.Rename)
 			if err != nil {
 				return fail(i, st, "reopen: %v", err)
 			}
